@@ -35,7 +35,7 @@ AppendCrc(bytes) == bytes \o CrcBytes(bytes)
 LfsrNext(r) == IF r % 2 = 0 THEN r \div 2 ELSE (r \div 2) ^^ 184
 RECURSIVE LfsrSeqR(_, _)
 LfsrSeqR(n, r) == IF n = 0 THEN <<>> ELSE <<r>> \o LfsrSeqR(n - 1, LfsrNext(r))
-LfsrSeq == LfsrSeqR(256, 66)
+LfsrSeq == LfsrSeqR(1024, 66)
 Randomize(pl) == [i \in 1 .. Len(pl) |-> pl[i] ^^ LfsrSeq[i]]
 
 (* ---- byte stuffing ---------------------------------------------------- *)
